@@ -166,3 +166,18 @@ def env_replay(ctx, sub, envmodule, envcfg, limit, hdrs, test, tracemodule, trac
     args.update(extra_args or {})
     return bubble_tv(ctx, test, sub, tracemodule, tracecfg, "%s tlc-schedules %s%s" % (label, envcfg.replace(".cfg", ""), " perturbed" if perturb else ""), args,
                      silent=silent, perturb=perturb, sig=sig, timeout=timeout)
+
+
+def async_env_part(ctx, limit):
+    """C08 / C09: the goroutine-backed streams under TLC-generated environment schedules (MergeEnv, BatchEnv, MapOrdEnv,
+    PipeEnv), half of them with schedule perturbation; judged by their trace specs (error identity, nothing lost or
+    duplicated, ownership ledger of the gated sources, 'closed by the time Close returns')"""
+    env_replay(ctx, "merge", "MergeEnv", ctx.pick("env_n2_l6.cfg", "env_n2_l8.cfg"), limit, [{"n": 2}], "TestMerge", "Trace_Merge", "tv.cfg", "merge")
+    env_replay(ctx, "merge", "MergeEnv", ctx.pick("env_n3_l5.cfg", "env_n3_l7.cfg"), limit, [{"n": 3}], "TestMerge", "Trace_Merge", "tv.cfg", "merge", perturb=True)
+    env_replay(ctx, "batch", "BatchEnv", ctx.pick("env_l7.cfg", "env_l9.cfg"), limit, [{"size": 2, "maxwait": 10, "func": False}], "TestBatch", "Trace_Batch", "tv.cfg", "batch")
+    env_replay(ctx, "batch", "BatchEnv", ctx.pick("env_l7h.cfg", "env_l9h.cfg"), limit, [{"size": 2, "maxwait": 10, "func": True}], "TestBatch", "Trace_Batch", "tv.cfg", "batch", perturb=True)
+    sh = [{"Kind": "stream", "P": 2, "Buf": 1}, {"Kind": "stream", "P": 2, "Buf": 0, "Fail": {"2": True}}, {"Kind": "stream", "P": 1, "Buf": 2, "MCtx": 2}]
+    env_replay(ctx, "parallel", "MapOrdEnv", ctx.pick("env_s_l7.cfg", "env_s_l9.cfg"), limit // 2, sh, "TestMapOrd", "Trace_MapOrd", "tv.cfg", "mapstream")
+    env_replay(ctx, "parallel", "MapOrdEnv", ctx.pick("env_s_l7.cfg", "env_s_l9.cfg"), limit // 2, sh, "TestMapOrd", "Trace_MapOrd", "tv.cfg", "mapstream", perturb=True)
+    env_replay(ctx, "pipe", "PipeEnv", ctx.pick("env_s2_l6.cfg", "env_s2_l7.cfg"), limit // 2, [{"B": 0}, {"B": 1}, {"B": 2}], "TestPipe", "Trace_Pipe", "tv.cfg", "pipe",
+               perturb=True, silent=True)
